@@ -30,6 +30,9 @@ from .kernel import Deadlock, Kernel, activate
 _HEX = re.compile(r"-?[0-9a-f]{8}-[0-9a-f]{4}-[0-9a-f]{4}-[0-9a-f]{4}-[0-9a-f]{12}|-?[0-9a-f]{16,}")
 
 
+SOURCE_LAYER_PREFIXES = ("pix-",)  # name the C05 engine gives to the source array it feeds in
+
+
 def _layer_of(key: Any) -> str:
     name = key[0] if isinstance(key, tuple) else key
     return str(name)
@@ -38,6 +41,19 @@ def _layer_of(key: Any) -> str:
 def _idx_of(key: Any) -> Tuple:
     rest = tuple(key[1:]) if isinstance(key, tuple) else ()
     return tuple(r if isinstance(r, (int, str)) else str(r) for r in rest)
+
+
+def _prefix(layer_name: str) -> str:
+    """Token-free layer prefix.  Names dask gives to fused tasks list the fused operations; whether an operation
+    that occurs twice in a chain is listed once or twice ("pix-astype" / "pix-astype-astype") depends on the
+    iteration order of sets of key strings inside dask's fusion, i.e. on tokens - repeated words are dropped."""
+    if layer_name.startswith(SOURCE_LAYER_PREFIXES):
+        return SOURCE_LAYER_PREFIXES[0].rstrip("-")  # whatever was fused into a source chunk: see DaskSim.__call__
+    words: List[str] = []
+    for w in _HEX.sub("", layer_name).split("-"):
+        if not words or words[-1] != w or not w:
+            words.append(w)
+    return "-".join(words)
 
 
 class Canon:
@@ -49,22 +65,33 @@ class Canon:
     temp paths or uuids, the structure does not."""
 
     ROUNDS = 6
+    MAX_ROUNDS = 48
 
-    def __init__(self, dsk: Dict[Any, Any], deps: Dict[Any, List[Any]], dependents: Dict[Any, List[Any]], depth: Dict[Any, int]):
+    def __init__(self, dsk: Dict[Any, Any], deps: Dict[Any, List[Any]], dependents: Dict[Any, List[Any]], depth: Dict[Any, int], requested: Optional[List[Any]] = None):
         from .core import H
 
-        lab = {k: H(_HEX.sub("", _layer_of(k)), _idx_of(k)) for k in dsk}
+        # a requested key carries its position in the request: two structurally identical sub-graphs computed by one
+        # dask.compute(a, b) (paired C13 requests) are told apart by which output they feed, never by their tokens
+        pos = {k: i for i, k in enumerate(requested or [])}
+        lab = {k: H(_prefix(_layer_of(k)), _idx_of(k), pos.get(k, -1)) for k in dsk}
         sdeps = {k: tuple(set(v)) for k, v in deps.items()}
         sdpts = {k: tuple(set(v)) for k, v in dependents.items()}
-        for _ in range(self.ROUNDS):
+        # refine until the partition stops getting finer (at least ROUNDS rounds: two layers may differ only far
+        # downstream, e.g. the full-resolution and the overview branch of a COG graph behind identical first hops)
+        ndistinct = len(set(lab.values()))
+        for rnd in range(self.MAX_ROUNDS):
             lab = {k: hash((lab[k], tuple(sorted(lab[d] for d in sdeps[k])), tuple(sorted(lab[d] for d in sdpts[k])))) for k in dsk}
+            n2 = len(set(lab.values()))
+            if rnd + 1 >= self.ROUNDS and n2 == ndistinct:
+                break
+            ndistinct = n2
         layers: Dict[str, List[Any]] = {}
         for k in dsk:
             layers.setdefault(_layer_of(k), []).append(k)
         by_prefix: Dict[str, List[Tuple[int, int, int, str]]] = {}
         for pos, (ln, keys) in enumerate(layers.items()):
             sig = hash(tuple(sorted(lab[k] for k in keys)))
-            by_prefix.setdefault(_HEX.sub("", ln), []).append((min(depth[k] for k in keys), sig, pos, ln))
+            by_prefix.setdefault(_prefix(ln), []).append((min(depth[k] for k in keys), sig, pos, ln))
         self.layer: Dict[str, str] = {}
         self.ambiguous = 0
         for prefix, lst in by_prefix.items():
@@ -179,9 +206,20 @@ class DaskSim:
                     q.append(d)
         if len(depth) != len(dsk):
             raise HarnessError("cycle in task graph")
-        canon = Canon(dsk, deps, dependents, depth)
+        canon = Canon(dsk, deps, dependents, depth, requested=list(flatten(keys)) if isinstance(keys, list) else [keys])
         self.ambiguous_layers = canon.ambiguous
         cname = {k: canon(k) for k in dsk}
+        # Source chunks are named after what consumes them.  dask fuses the source getter with the first operations on
+        # it and names the fused task after the operations fused in; for a chain source -> astype -> astype (bool COG
+        # input) the spelling ("pix-astype" / "pix-astype-astype") and hence the layer a chunk lands in depends on the
+        # iteration order of sets of key strings inside dask - on per-run tokens.  Structure and labels do not
+        # (prefixes are compared with repeated words collapsed); only the name would.
+        for k in dsk:
+            if _layer_of(k).startswith(SOURCE_LAYER_PREFIXES) and dependents[k]:
+                cname[k] = ("src<-", *_idx_of(k), *(x for d in sorted({cname_d for cname_d in (canon(d) for d in set(dependents[k]))}, key=_sort_key) for x in d))
+        if __import__("os").environ.get("ODCSIM_DUMP_GRAPH"):
+            for row in sorted((str(cname[k]), sorted(str(cname[d]) for d in set(deps[k]))) for k in dsk):
+                print("G", row)
         if self.tag:
             cname = {k: (f"{self.tag}:{c[0]}", *c[1:]) for k, c in cname.items()}
         if len(set(cname.values())) != len(cname):
